@@ -1068,7 +1068,9 @@ static void CodeRESTORE(Word Index) {
 
         Old            = FirstSaveState;
         FirstSaveState = Old->Next;
-        if (Old->SavePC != ActPC) {
+        /* a frame saved inside a structure definition cannot bring back the
+           structure pseudo segment once that structure has been closed */
+        if ((Old->SavePC != ActPC) && ((Old->SavePC != StructSeg) || StructStack)) {
             ActPC     = Old->SavePC;
             DontPrint = True;
         }
